@@ -6,7 +6,7 @@ use crate::props::frontends::{self, materialise};
 use crate::props::lib_level;
 use crate::runner::{run_enum, run_prop, Ctx, Fail, Outcome, Stats, Violation, THREADS};
 use crate::util;
-use pickle_fuzzer::verif::{self, TraceCfg};
+use pickle_fuzzer::verif;
 use serde_json::{json, Value};
 use std::io::{Seek, SeekFrom, Write};
 use std::process::{Command, Stdio};
@@ -48,7 +48,7 @@ fn note_done() {
 }
 
 pub fn fuel_for(c: &GenCase) -> u64 {
-    (3 * (c.min_opcodes.max(c.max_opcodes) as u64) + 8) * (1 + c.prior_calls as u64)
+    crate::case::budgets(c.min_opcodes, c.max_opcodes).0
 }
 
 type Job = (GenCase, std::sync::mpsc::Sender<Result<Vec<u8>, Failure>>);
@@ -64,10 +64,9 @@ fn spawn_small() -> std::sync::mpsc::Sender<Job> {
         .stack_size(2 << 20)
         .spawn(move || {
             while let Ok((c, back)) = rx.recv() {
-                verif::start(TraceCfg { fuel: Some(fuel_for(&c)), draw_fuel: Some(draw_fuel_for(&c)), ..Default::default() });
-                // build, generate and drop (recursive Drop of nested tuples included) all happen here
+                // build, generate and drop (recursive Drop of nested tuples included) all happen here;
+                // `run` arms the emission and entropy-draw budgets (case::budgets) for every call
                 let r = c.run();
-                let _ = verif::take();
                 if back.send(r).is_err() {
                     break;
                 }
@@ -183,7 +182,7 @@ fn enum_configs(protocol: u8, which: u8, range: (usize, usize)) -> GenCase {
 /// mutation, the opcode choice); 100 000 per opcode plus 10^6 is only ever exceeded by a loop
 /// that keeps drawing without making progress, which it turns into a deterministic failure.
 pub fn draw_fuel_for(c: &GenCase) -> u64 {
-    (100_000 * (c.min_opcodes.max(c.max_opcodes) as u64 + 8) + 1_000_000) * (1 + c.prior_calls as u64)
+    crate::case::budgets(c.min_opcodes, c.max_opcodes).1
 }
 
 /// body of the child process
